@@ -411,7 +411,16 @@ func engineC16(c *vctx) error {
 		if i%4 == 3 {
 			dupPct = 15
 		}
-		if err := c16ApiCase(c, fmt.Sprintf("api%d", i), g, npool, bigEvery, workers, 4+g.intn(20), dupPct, i%2 == 1); err != nil {
+		ncalls := 4 + g.intn(20)
+		if bigEvery > 0 {
+			// packs fill up and are indexed early; the same blobs keep being requested afterwards
+			// (they must then be found in the in-memory, not yet saved index)
+			bigEvery, npool, ncalls = 1, 40+g.intn(8), 40+g.intn(20)
+			if workers < 2 {
+				workers = 2
+			}
+		}
+		if err := c16ApiCase(c, fmt.Sprintf("api%d", i), g, npool, bigEvery, workers, ncalls, dupPct, i%2 == 1); err != nil {
 			return err
 		}
 	}
